@@ -642,6 +642,16 @@ def _own_scratch():
     return d
 
 
+def _clean_corpus_dir():
+    """pv.corpus writes the event dataset of the basic models to .scratch/corpus_<pid> and leaves it there"""
+    d = os.path.join(SCRATCH, f'corpus_{os.getpid()}')
+    if d not in _OWN_DIRS and os.path.isdir(d):
+        _OWN_DIRS.append(d)
+        import atexit
+
+        atexit.register(shutil.rmtree, d, True)
+
+
 def start_model(name):
     if name in _START_CACHE:
         return _START_CACHE[name]
@@ -668,6 +678,7 @@ def start_model(name):
                 m = corpus.get(name)
             except Exception as e:  # noqa
                 raise Reject(f'start model {name} unavailable: {type(e).__name__}')
+            _clean_corpus_dir()
     _START_CACHE[name] = m
     return m
 
@@ -995,7 +1006,20 @@ def _eq(a, b, label):
 
 
 def _short(x, n=300):
-    s = repr(x)
+    """bounded text for reports; pharmpy objects are shown through to_dict() (the repr of a
+    CompartmentalSystem draws the graph and is not meant for arbitrary systems)"""
+    if isinstance(x, (dict, list, tuple, str, int, float, bool)) or x is None:
+        s = repr(x)
+    elif hasattr(x, 'serialize'):
+        try:
+            s = f'{type(x).__name__}<{x.serialize()}>'
+        except Exception:  # noqa
+            s = f'<{type(x).__name__}>'
+    else:
+        try:
+            s = f'{type(x).__name__}{x.to_dict()!r}'
+        except Exception:  # noqa
+            s = f'<{type(x).__name__}>'
     return s if len(s) <= n else s[:n] + '...'
 
 
@@ -1529,7 +1553,7 @@ def run_hash_process(spec):
             comps = sorted(k for k in r0['raw'] if len({r['raw'][k] for r in recs}) > 1)
             _VIOLATION_SEEN[0] = max(1, _VIOLATION_SEEN[0])
             raise Violation(
-                f'process-key-differs[{",".join(comps) or "dataset"}]', observed={str(s): r['hash'] for s, r in zip(seeds, recs)}, expected='one key',
+                f'process-key-differs[{",".join(comps) or "hashing"}]', observed={str(s): r['hash'] for s, r in zip(seeds, recs)}, expected='one key',
                 detail=f'same recipe, same order-insensitive content fingerprint {r0["fp"]} in all interpreters, but ModelHash differs between PYTHONHASHSEED {seeds}; '
                 f'start={r0.get("start")} applied={r0.get("applied")}; to_dict components that differ: {comps}',
             )
@@ -2001,10 +2025,10 @@ def selfcheck():
 
 
 SUBCHECKS = [
-    SubCheck('components', COMPONENTS, run_components, quick=3000, thorough=60000, quick_time=600.0, thorough_time=3000.0),
-    SubCheck('generic_code', GENERIC_SPEC, run_generic_code, quick=300, thorough=6000, quick_time=600.0, thorough_time=3000.0),
-    SubCheck('hash_process', PROCESS_SPEC, run_hash_process, quick=16, thorough=400, quick_time=600.0, thorough_time=3000.0),
-    SubCheck('hash_content', CONTENT_SPEC, run_hash_content, quick=1200, thorough=30000, quick_time=600.0, thorough_time=3000.0),
+    SubCheck('components', COMPONENTS, run_components, quick=3000, thorough=30000, quick_time=600.0, thorough_time=3000.0),
+    SubCheck('generic_code', GENERIC_SPEC, run_generic_code, quick=300, thorough=3000, quick_time=600.0, thorough_time=3000.0),
+    SubCheck('hash_process', PROCESS_SPEC, run_hash_process, quick=16, thorough=96, quick_time=600.0, thorough_time=3000.0),
+    SubCheck('hash_content', CONTENT_SPEC, run_hash_content, quick=1200, thorough=15000, quick_time=600.0, thorough_time=3000.0),
 ]
 
 
